@@ -291,6 +291,13 @@ pub fn run_comp(body: &Comp, decls: &Decls, fuel: u64) -> RefRun {
                 comp = Rc::new((**body).clone());
             }
             | Comp::TyFn { body, .. } => comp = Rc::new((**body).clone()),
+            | Comp::Monadic { body, args, .. } => {
+                let mut c = (**body).clone();
+                for (a, t) in args {
+                    c = Comp::App { fun: Box::new(c), arg: a.clone(), arg_ty: t.clone() };
+                }
+                comp = Rc::new(c);
+            }
             | Comp::TyAppV { fun, .. } | Comp::TyAppC { fun, .. } => comp = Rc::new((**fun).clone()),
             | Comp::If { op, a, b, then, els, .. } => {
                 let (x, y) = (val!(a, &env), val!(b, &env));
